@@ -121,10 +121,14 @@ def event_payloads(ev):
     may or may not be included (the statement says 'exact payload'; both readings of
     whether the terminator belongs to it are accepted)."""
     lines = [ev["first"]] + list(ev.get("more", []) if ev["form"] != "single" else [])
-    base = "\n".join(lines)
+    fulls = {"\n".join(lines)}
     if ev["form"] == "data":
-        return {base, base + "\nOK"}
-    return {base}
+        fulls.add("\n".join(lines + ["OK"]))
+    if ev["first"] == "":
+        # nothing after the name on the first line (650+NS / 650+NEWCONSENSUS style): the payload
+        # may or may not start with the line break that followed the name
+        fulls |= {f[1:] for f in fulls if f.startswith("\n")}
+    return fulls
 
 
 # ------------------------------------------------------------------------ server-side parsing
